@@ -1,6 +1,7 @@
 package main
 
 import (
+	"fmt"
 	"math/rand"
 
 	"github.com/akalin/gopar/gf2p16"
@@ -299,8 +300,15 @@ func runC11(args []string) error {
 		for _, kind := range kinds {
 			m, kname := genMatrix(rng, n, kind)
 			gm := m.toGopar()
-			// Inverse
-			inv, err := gm.Inverse()
+			// Inverse (a panic inside the code under test is an observation, not a harness failure)
+			inv, err := func() (r gf2p16.Matrix, e error) {
+				defer func() {
+					if x := recover(); x != nil {
+						e = fmt.Errorf("panic: %v", x)
+					}
+				}()
+				return gm.Inverse()
+			}()
 			ev := tracelog.M{"ev": "inv", "n": n, "kind": kname, "m": m.ints(), "probes": probes(rng, n)}
 			ev["m_unchanged"] = fromGopar(gm, n, n).equal(m)
 			if err != nil {
@@ -321,12 +329,22 @@ func runC11(args []string) error {
 				cols := 1 + rng.Intn(n+2)
 				nm := randMat(rng, n, cols)
 				gn := nm.toGopar()
-				res, err := gm.RowReduceForInverse(gn)
+				res, err := func() (r gf2p16.Matrix, e error) {
+					defer func() {
+						if x := recover(); x != nil {
+							e = fmt.Errorf("panic: %v", x)
+						}
+					}()
+					return gm.RowReduceForInverse(gn)
+				}()
 				ev := tracelog.M{"ev": "rr", "n": n, "cols": cols, "kind": kname, "m": m.ints(), "nm": nm.ints(), "probes": probes(rng, cols)}
 				ev["m_unchanged"] = fromGopar(gm, n, n).equal(m)
 				ev["n_unchanged"] = fromGopar(gn, n, cols).equal(nm)
 				if err != nil {
 					ev["res"] = "singular"
+					if err.Error() != "singular matrix" {
+						ev["res"] = "other:" + err.Error()
+					}
 					ev["cert"] = nullVector(m)
 					ev["x"] = [][]int{}
 				} else {
